@@ -409,7 +409,7 @@ def wl_blocks(ctx, idx, rng):
 
 def workloads(ctx):
     q = ctx.tier == "quick"
-    return [("blocks", 400 if q else 16000, wl_blocks), ("roundtrip", 1620 if q else 64800, wl_roundtrip), ("reject", len(PERT) * 6 * (4 if q else 100), wl_reject)]
+    return [("blocks", 800 if q else 16000, wl_blocks), ("roundtrip", 3240 if q else 64800, wl_roundtrip), ("reject", len(PERT) * 6 * (4 if q else 100), wl_reject)]
 
 
 def setup(ctx):
